@@ -37,7 +37,7 @@ def kinds(b):
                       (lambda r: lambda v, prm: r(v[0], v[1]))(rel)))
         K.append(Kind("bool.assert_%s(x,const)" % nm, 1,
                       (lambda n: lambda ns, ops, prm: getattr(ns.bo.LinCombBool(ops[0]), "assert_" + n)(prm))(nm),
-                      (lambda r: lambda v, prm: v[0] in (0, 1) and r(v[0], prm))(rel), params=[0, 1]))
+                      (lambda r: lambda v, prm: v[0] in (0, 1) and r(v[0], prm))(rel), params=[0, 1, 2, -1, 3]))
     for nm, rel in cmpops:
         K.append(Kind("bool.assert_%s(x,y)" % nm, 2,
                       (lambda n: lambda ns, ops, prm: getattr(ns.bo.LinCombBool(ops[0]), "assert_" + n)(ns.bo.LinCombBool(ops[1])))(nm),
